@@ -84,5 +84,9 @@ def load_relational(inst):
     M.Comment.objects.bulk_create([M.Comment(id=r["id"], text=r["text"], score=r["score"],
                                              post_id=r["post_id"], author_id=r["author_id"])
                                    for r in inst["comment"]])
+    # self references second (a reply may have a lower id than its parent in random instances)
+    for r in inst["comment"]:
+        if r.get("parent_id") is not None:
+            M.Comment.objects.filter(id=r["id"]).update(parent_id=r["parent_id"])
     Through = M.Post.tags.through
     Through.objects.bulk_create([Through(post_id=p, tag_id=t) for p, t in inst["post_tags"]])
